@@ -78,7 +78,7 @@ def c_op(op):
         act = {"+": "Add", "-": "Remove", "=": "Replace"}[op[4]]
         return f"(OStore {op[1]} {cbool(op[2])} {c_set(op[3])} {act} {cbool(op[5])} {c_strs(op[6])})"
     if k == "fetch":
-        kind = {"flags": "FFlags", "peek": "FBodyPeek", "body": "FBody"}[op[4]]
+        kind = {"flags": "FFlags", "peek": "FBodyPeek", "body": "FBody", "both": "FBoth"}[op[4]]
         return f"(OFetch {op[1]} {cbool(op[2])} {c_set(op[3])} {kind})"
     if k == "search":
         return f"(OSearch {op[1]} {cbool(op[2])} {cstr(op[3])})"
@@ -171,6 +171,9 @@ def parse_code(text: str):
 
 RE_BODY = re.compile(
     rb'^\* (\d+) FETCH \(BODY\[HEADER\.FIELDS \(SUBJECT\)\] \{\d+\}\r\nSubject: cid-(\d+)\r\n\r\n INTERNALDATE "([^"]+)"(?: UID (\d+))?\)\r\n$')
+# FLAGS and a body item in one FETCH: one response line, two model responses
+RE_BOTH = re.compile(
+    rb'^\* (\d+) FETCH \(FLAGS \(([^)]*)\) BODY\[HEADER\.FIELDS \(SUBJECT\)\] \{\d+\}\r\nSubject: cid-(\d+)\r\n\r\n INTERNALDATE "([^"]+)"(?: UID (\d+))?\)\r\n$')
 
 
 def to_resps(chunks: list[bytes]):
@@ -196,9 +199,14 @@ def to_resps(chunks: list[bytes]):
                 out.append((c[2].lower(),))
         elif c[0] == "fetch":
             m = RE_BODY.match(ch)
+            mb = RE_BOTH.match(ch)
             if m:
                 out.append(("body", int(m.group(1)), int(m.group(4)) if m.group(4) else None, int(m.group(2)),
                             parse_date(m.group(3).decode())))
+            elif mb:
+                u = int(mb.group(5)) if mb.group(5) else None
+                out.append(("fetch", int(mb.group(1)), sorted(mb.group(2).decode("latin-1").split()), u))
+                out.append(("body", int(mb.group(1)), u, int(mb.group(3)), parse_date(mb.group(4).decode())))
             else:
                 out.append(("other", ch))
         elif c[0] == "untagged":
@@ -295,7 +303,8 @@ def run_op(w: W.World, op):
     elif k == "fetch":
         _, _, uidc, st, kind = op
         att = {"flags": "(FLAGS)", "peek": "(BODY.PEEK[HEADER.FIELDS (SUBJECT)] INTERNALDATE)",
-               "body": "(BODY[HEADER.FIELDS (SUBJECT)] INTERNALDATE)"}[kind]
+               "body": "(BODY[HEADER.FIELDS (SUBJECT)] INTERNALDATE)",
+               "both": "(FLAGS BODY[HEADER.FIELDS (SUBJECT)] INTERNALDATE)"}[kind]
         w.cmd(s, f"t {'UID ' if uidc else ''}FETCH {set_text(st)} {att}")
     elif k == "search":
         _, _, uidc, flag = op
@@ -521,7 +530,7 @@ class History:
             return ("store", s, uidc, self.ruidset(s) if uidc else self.rset(n), rng.choice("+-="), rng.random() < 0.3, fl)
         if k == "fetch":
             uidc = rng.random() < 0.4
-            return ("fetch", s, uidc, self.ruidset(s) if uidc else self.rset(n), rng.choice(["flags", "flags", "peek", "body"]))
+            return ("fetch", s, uidc, self.ruidset(s) if uidc else self.rset(n), rng.choice(["flags", "flags", "peek", "body", "both"]))
         if k == "search":
             return ("search", s, rng.random() < 0.4, rng.choice(SYSTEM + KEYWORDS + ["\\Recent"]))
         if k == "expunge":
